@@ -318,11 +318,31 @@ def second_pass_sweeps(ctx):
             ctx.fail('plain script (region character sweep): number of statements', text, observed=got, required=want)
 
 
+def paren_line_sweep(ctx):
+    """third pass: 'a semicolon inside a parenthesis never ends a statement' also when the text behind it starts a new line with a word that
+    usually starts a statement: every dictionary word at the beginning of a line inside parentheses, after a `;`"""
+    import props.C18 as C18
+    rng = ctx.rng
+    words = [w for w in C18.all_dictionary_words() if w not in ('BEGIN', 'DECLARE', 'END', 'CREATE', 'GO', 'CASE')]
+    for w in words:
+        sp = w if rng.random() < 0.5 else w.lower()
+        for text, want in (('select (1;\n%s 2; 3) from t; select 4' % sp, 2), ('insert into t values (a;\r\n  %s b; c, 2); select 3;\n%s x' % (sp, sp), 3), ('select f(\n%s; 1) from t; select 2' % sp, 2)):
+            ctx.evaluations += 1
+            ctx.count('paren_line')
+            try:
+                got = [len(sqlparse.split(text)), len(sqlparse.parse(text))]
+            except Exception as e:
+                got = 'raised ' + type(e).__name__
+            if got != [want, want]:
+                ctx.fail('plain script (word at the beginning of a line inside parentheses): number of statements', text, observed=got, required=want)
+
+
 def run(ctx):
     rng = ctx.rng
     dictionary_sweep(ctx)
     region_sweep(ctx)
     second_pass_sweeps(ctx)
+    paren_line_sweep(ctx)
     n = ctx.n(400, 12000)
     g = grammar.Gen(rng, feat={'sqlfor': True})
     model_q = []
